@@ -4,6 +4,7 @@
 package ch
 
 import (
+	"context"
 	"errors"
 	"fmt"
 	"io"
@@ -28,6 +29,11 @@ type Outcome struct {
 	End string
 	// Chunk: 0 deliver the stream in one read, 1 byte at a time.
 	Chunk int
+	// Err: the transport error of a "fail" outcome (nil: ErrTransport).
+	Err error
+	// Hang: after the stream (or for a rejected response: at once) the body blocks until the request context is
+	// cancelled, like a server that keeps the response open.
+	Hang bool
 }
 
 func (o Outcome) String() string {
@@ -44,10 +50,19 @@ type Body struct {
 	pos    int
 	Closed bool
 	Reads  int
+	// Live: every Read is a scheduling point and fails with the context's error once the request context is
+	// cancelled (what net/http's body does), so a cancelling thread can land between any two reads.
+	Live bool
 }
 
 func (b *Body) Read(p []byte) (int, error) {
 	b.Reads++
+	if b.Live {
+		vrt.Yield("body read")
+		if b.Ctx.Cancelled() {
+			return 0, context.Canceled
+		}
+	}
 	if b.pos < len(b.O.Stream) {
 		n := len(b.O.Stream) - b.pos
 		if b.O.Chunk == 1 {
@@ -59,6 +74,11 @@ func (b *Body) Read(p []byte) (int, error) {
 		copy(p, b.O.Stream[b.pos:b.pos+n])
 		b.pos += n
 		return n, nil
+	}
+	if b.O.Hang {
+		// nothing more arrives; the read returns only when the request is cancelled
+		vrt.Recv(b.Ctx.Done())
+		return 0, context.Canceled
 	}
 	switch b.O.End {
 	case "err":
@@ -90,6 +110,8 @@ type Transport struct {
 	Next     func(n int) (Outcome, bool)
 	Attempts []*Attempt
 	Ended    bool
+	// Live makes the response bodies live (see Body.Live).
+	Live bool
 }
 
 func (t *Transport) RoundTrip(req *http.Request) (*http.Response, error) {
@@ -112,12 +134,16 @@ func (t *Transport) RoundTrip(req *http.Request) (*http.Response, error) {
 	t.Attempts = append(t.Attempts, a)
 	switch o.Kind {
 	case "fail":
+		if o.Err != nil {
+			return nil, o.Err
+		}
 		return nil, ErrTransport
 	case "reject":
+		a.Body = &Body{O: Outcome{Kind: "reject", Stream: "no", End: "eof", Hang: o.Hang}, Ctx: t.Ctx}
 		return &http.Response{StatusCode: 500, Status: "500 Internal Server Error", Proto: "HTTP/1.1", ProtoMajor: 1, ProtoMinor: 1,
-			Header: http.Header{"Content-Type": {"text/plain"}}, Body: io.NopCloser(strings.NewReader("no")), Request: req}, nil
+			Header: http.Header{"Content-Type": {"text/plain"}}, Body: a.Body, Request: req}, nil
 	}
-	a.Body = &Body{O: o, Ctx: t.Ctx}
+	a.Body = &Body{O: o, Ctx: t.Ctx, Live: t.Live}
 	return &http.Response{StatusCode: 200, Status: "200 OK", Proto: "HTTP/1.1", ProtoMajor: 1, ProtoMinor: 1,
 		Header: http.Header{"Content-Type": {"text/event-stream"}}, Body: a.Body, Request: req}, nil
 }
